@@ -1,4 +1,5 @@
 import Proofs.SortTrim
+import Proofs.LoadKeeping
 import Model.Loaders
 /-!
 # C10 — a length-limited load returns exactly the most recent entries (fetcher + sort-and-trim)
@@ -22,6 +23,13 @@ event list, and there are exactly `min n size` of them.  This covers `NewFromMul
 (trim length = fetch length = `n`, `k = 0`) and `NewFromEntry` (fetch length = trim length = `max n k`).
 `NewFromEntryHash` fetches with `n` but trims with `max n 1`: covered for `n ≥ 1`; the corner `n = 0`
 (result = the requested entry) is exercised by the `fetch` stream only.
+
+`load_entries_limited_exact`: the fourth loader, `NewFromEntry`, does not trim with `entryLastN` but with
+`entryLastNKeeping` (every supplied entry stays, the quota goes to the newest others).  For every accepted
+execution of the fetch with length `max n k` (k = number of supplied entries, repetitions counted) the
+loaded log holds exactly what the keeping cut of the *whole* sorted closure holds: all supplied entries,
+`min (max n k) size` entries in all, and of the others exactly the newest `max n k - d` (d = number of
+distinct supplied entries) — whatever the concurrency and the arrival order.
 -/
 namespace Model.C10
 
@@ -110,6 +118,92 @@ theorem load_limited_exact (cfg : FCfg) (roots : List Hash) (evs : List FEvent) 
   refine ⟨rfl, ?_⟩
   rw [lastN_length, (goSort_perm lt _).length_eq]
 
+/-- `NewFromEntry` with a limit: all supplied entries plus the most recent others, independent of the schedule -/
+theorem load_entries_limited_exact (cfg : FCfg) (roots : List Hash) (evs : List FEvent) (s : FState)
+    (clockId : Bytes) (k : SortKind) (source : List Entry) (n : Int)
+    (hn : 0 ≤ n) (hne : source ≠ [])
+    -- `fromEntry`: the fetch runs with `maxInt(n, len(sourceEntries))`
+    (hlen : cfg.length = max n (source.length : Int))
+    -- the supplied entries are entries of the stored log
+    (hsrc : ∀ e ∈ source, e ∈ reach cfg.store roots)
+    (hex : ∀ h, cfg.excluded h = false) (hcl : ClosedStore cfg roots) (hti : TimesIncrease cfg)
+    (hrefs : ∀ h e, Anc cfg roots h → get? cfg.store h = some e → ∀ c ∈ e.refs, Anc cfg roots c)
+    (hsto : STO clockAsc (· ∈ reach cfg.store roots))
+    (hasym : ∀ a b, a ∈ reach cfg.store roots → b ∈ reach cfg.store roots → clockAsc a b = true → clockAsc b a = false)
+    (htime : ∀ a b, a ∈ reach cfg.store roots → b ∈ reach cfg.store roots →
+      a.clock.time < b.clock.time → clockAsc a b = true)
+    (h : accepted cfg roots evs = some s) (hq : quiescent s) (hc : s.cancelled = false) :
+    ∃ L, loadEntries clockId k source s.results n = some L ∧
+      -- the same list as the keeping cut of the whole sorted closure: independent of the event list
+      L.entries = lastNKeeping cfg.length (goSort clockAsc (reach cfg.store roots)) source ∧
+      -- every supplied entry is there
+      (∀ e ∈ source, e ∈ L.entries) ∧
+      -- `min (max n k) size` entries in all
+      L.entries.length = min cfg.length.toNat (reach cfg.store roots).length ∧
+      -- an entry that was not supplied is there iff it is among the newest `max n k - d` of the others
+      (∀ x, x ∈ reach cfg.store roots → x ∉ source →
+        (x ∈ L.entries ↔ x ∈ lastN (cfg.length - (dedupHashes (source.map (·.hash)) []).length)
+          ((goSort clockAsc (reach cfg.store roots)).filter (fun e => !keptBy source e)))) := by
+  have w := WF_accepted h
+  have hlen0 : 0 ≤ cfg.length := by omega
+  have hAh : (hashes (reach cfg.store roots)).Nodup := reach_nodup cfg.store roots
+  have hSAh : (hashes (goSort clockAsc (reach cfg.store roots))).Nodup := goSort_hashes_nodup _ hAh
+  have hsubR : ∀ r ∈ s.results, r ∈ reach cfg.store roots :=
+    fun r hr => (mem_reach_iff cfg roots hex hcl.undef r).mpr (results_sound w hr)
+  have hcut : ∀ a ∈ reach cfg.store roots, a ∈ s.results ∨ cfg.length ≤ (cntGt s.results a.clock.time : Int) := by
+    intro a ha
+    obtain ⟨x, rx, hg⟩ := (mem_reach_iff cfg roots hex hcl.undef a).mp ha
+    exact limited_admitted_or_cut hlen0 hex hcl hti h hq hc (rx.anc hrefs) hg
+  have heq := lastNKeeping_cut_eq (N := cfg.length) hsto hasym htime hAh (nodup_of_map_nodup _ w.resND)
+    hsubR hsrc hcut
+  have hsubA : ∀ hh ∈ hashes source, hh ∈ hashes (goSort clockAsc (reach cfg.store roots)) := fun hh hm => by
+    obtain ⟨e, he, rfl⟩ := List.mem_map.mp hm
+    exact List.mem_map_of_mem (mem_goSort.mpr (hsrc e he))
+  have hmem := mem_lastNKeeping cfg.length source hSAh hsubA
+  have hkeeps : ∀ e ∈ source, e ∈ lastNKeeping cfg.length (goSort clockAsc (reach cfg.store roots)) source :=
+    fun e he => (hmem e).mpr ⟨mem_goSort.mpr (hsrc e he), Or.inl ((keptBy_iff source e).mpr (List.mem_map_of_mem he))⟩
+  have hslh : (hashes (lastNKeeping cfg.length (goSort clockAsc (reach cfg.store roots)) source)).Nodup :=
+    hSAh.sublist ((lastNKeeping_sublist _ _ _).map _)
+  have hdiff : entryDifference (lastNKeeping cfg.length (goSort clockAsc (reach cfg.store roots)) source) source = [] := by
+    apply entryDifference_nil
+    intro v hv
+    rw [fhas_iff]
+    exact List.mem_map_of_mem (hkeeps v hv)
+  have hnonempty : lastNKeeping cfg.length (goSort clockAsc (reach cfg.store roots)) source ≠ [] := by
+    intro hnil
+    cases source with
+    | nil => exact hne rfl
+    | cons v t =>
+      have := hkeeps v List.mem_cons_self
+      rw [hnil] at this; cases this
+  unfold loadEntries
+  have hgt : n > -1 := by omega
+  have hgt' : cfg.length > -1 := by omega
+  simp only [hgt, if_true, ← hlen, hgt', heq, hdiff, List.nil_append, List.length_nil, List.drop_zero]
+  cases hl : (lastNKeeping cfg.length (goSort clockAsc (reach cfg.store roots)) source).getLast? with
+  | none => exact absurd (List.getLast?_eq_none_iff.mp hl) hnonempty
+  | some lastE =>
+    have hent : (newLog lastE.logId clockId k
+        (lastNKeeping cfg.length (goSort clockAsc (reach cfg.store roots)) source) []).entries =
+        lastNKeeping cfg.length (goSort clockAsc (reach cfg.store roots)) source := by
+      rw [(newLog_entries _ _ _ _ _).1, omFromList_id hslh]
+    refine ⟨_, rfl, hent, ?_, ?_, ?_⟩
+    · intro e he; rw [hent]; exact hkeeps e he
+    · rw [hent, lastNKeeping_length cfg.length source hSAh hsubA (by omega), (goSort_perm _ _).length_eq]
+    · intro x hx hns
+      rw [hent, hmem x]
+      have hnk : ¬ keptBy source x = true := by
+        intro hk
+        obtain ⟨e, he, heq'⟩ := List.mem_map.mp ((keptBy_iff source x).mp hk)
+        have : e = x := eq_of_hash_eq hAh (hsrc e he) hx heq'
+        exact hns (this ▸ he)
+      constructor
+      · rintro ⟨_, h2 | h2⟩
+        · exact absurd h2 hnk
+        · exact h2
+      · intro h2
+        exact ⟨mem_goSort.mpr hx, Or.inr h2⟩
+
 /-! ## non-vacuity: limit 2 on a five-entry forked log; two schedules cut differently, load the same -/
 
 def e1 : Entry := { hash := [1], logId := [7], next := [], refs := [], clock := { id := [4], time := 1 } }
@@ -183,5 +277,33 @@ example : ∀ h e, Anc cfgL [[5]] h → get? cfgL.store h = some e → ∀ c ∈
   rcases key e (fget?_mem hg) c hc with rfl | rfl
   · exact a1
   · exact a2
+
+/-! ## non-vacuity for `NewFromEntry`: supplied `e1` and `e5`, limit 3; one schedule delivers everything,
+    another cuts `e1` and `e2` from the fetch result — the loaded log is `e1, e4, e5` both times -/
+
+def cfgK : FCfg := { store := [e1, e2, e3, e4, e5], length := 3, excluded := fun _ => false }
+def runK2 : List FEvent :=
+  [.dispatch [1], .dispatch [5], .complete [5] (some e5), .complete [1] (some e1), .dispatch [4], .dispatch [3],
+   .complete [4] (some e4), .complete [3] (some e3), .dispatch [2], .complete [2] (some e2)]
+def runK3 : List FEvent :=
+  [.dispatch [5], .complete [5] (some e5), .dispatch [3], .complete [3] (some e3), .dispatch [4],
+   .complete [4] (some e4), .dispatch [1], .complete [1] (some e1), .dispatch [2], .complete [2] (some e2)]
+
+example : (accepted cfgK [[1], [5]] runK2).map (fun s => (s.results, decide (quiescent s))) =
+    some ([e5, e1, e4, e3, e2], true) := by decide
+example : (accepted cfgK [[1], [5]] runK3).map (fun s => (s.results, decide (quiescent s))) =
+    some ([e5, e3, e4], true) := by decide
+example : (loadEntries [9] .lww [e1, e5] [e5, e1, e4, e3, e2] 3).map (·.entries) = some [e1, e4, e5] := by decide
+example : (loadEntries [9] .lww [e1, e5] [e5, e3, e4] 3).map (·.entries) = some [e1, e4, e5] := by decide
+example : lastNKeeping 3 (goSort clockAsc (reach cfgK.store [[1], [5]])) [e1, e5] = [e1, e4, e5] := by decide
+/-- an entry supplied twice counts twice in `k` and once in the result -/
+example : (loadEntries [9] .lww [e1, e5, e5] [e5, e3, e4] 2).map (·.entries) = some [e1, e4, e5] := by decide
+example : cfgK.length = max 3 (([e1, e5] : List Entry).length : Int) ∧
+    cfgK.length = max 2 (([e1, e5, e5] : List Entry).length : Int) := by decide
+example : ∀ e ∈ [e1, e5], e ∈ reach cfgK.store [[1], [5]] := by decide
+example : ∀ a ∈ reach cfgK.store [[1], [5]], ∀ b ∈ reach cfgK.store [[1], [5]],
+    (a ≠ b → clockAsc a b = true ∨ clockAsc b a = true) ∧
+    (clockAsc a b = true → clockAsc b a = false) ∧
+    (a.clock.time < b.clock.time → clockAsc a b = true) := by decide
 
 end Model.C10
